@@ -496,7 +496,12 @@ func (vm *VirtualMachine) eval(ctx context.Context) error {
 			for i := uint16(0); i < count; i++ {
 				items[i] = vm.pop()
 			}
-			vm.push(object.NewSet(items))
+			set := object.NewSet(items)
+			if errObj, ok := set.(*object.Error); ok {
+				// An unhashable member: raise instead of yielding the error as a value
+				return errObj.Value()
+			}
+			vm.push(set)
 		case op.BinarySubscr:
 			idx := vm.pop()
 			lhs := vm.pop()
